@@ -315,8 +315,16 @@ class Run:
         """Record a violation. `key` identifies the failing input/history (stable string);
         listed known findings with the same key are reported as KNOWN-FINDING instead."""
         for e in self.known:
-            if e.get("property") == self.prop and e.get("key") == key:
-                self.known_hits[key] = e
+            if e.get("property") != self.prop:
+                continue
+            # a listed finding is identified by the exact failing input (key) or, for a defect whose failing
+            # inputs form a family that cannot be enumerated stably, by the call-site family (key_regex) together
+            # with the violated clauses; anything else is still reported
+            hit = e.get("key") == key if "key" in e else False
+            if not hit and "key_regex" in e and re.match(e["key_regex"], key):
+                hit = ("clauses" not in e) or (clause in e["clauses"])
+            if hit:
+                self.known_hits[e.get("id", key)] = e
                 return False
         if len(self.violations) < 50:
             self.violations.append(dict(key=key, clause=clause, detail=detail))
